@@ -368,27 +368,27 @@ def gen_cases(tier, seed):
             cases.append(('P ' + f, f'exh{n}'))
     # a seeded sample of the next size
     nxt = forms_of_size(bound + 1, memo, ATOMS3)
-    k = 300 if tier == 'quick' else 12000
+    k = 300 if tier == 'quick' else 6000
     for f in rng.sample(nxt, min(k, len(nxt))):
         cases.append(('P ' + f, f'smp{bound + 1}'))
-    nrand = 450 if tier == 'quick' else 14000
+    nrand = 450 if tier == 'quick' else 8000
     for _ in range(nrand):
         nv = rng.choice([2, 3, 3, 4, 4])
         d = rng.choice([2, 3, 3, 4])
         cases.append(('P ' + rand_form(rng, d, nv, 1 if d >= 3 else 2), 'rand'))
-    nst = 150 if tier == 'quick' else 4000
+    nst = 150 if tier == 'quick' else 2500
     for _ in range(nst):
         cases.append(('N ' + rand_cf(rng, rng.randrange(1, 5), rng.choice(['or', 'or', 'or', 'any'])), 'stageN'))
         cases.append(('C ' + rand_cf(rng, rng.randrange(1, 4), rng.choice(['nnf', 'nnf', 'nnf', 'any'])), 'stageC'))
         cases.append(('L ' + rand_cf(rng, rng.randrange(1, 5), rng.choice(['cnf', 'cnf', 'cnf', 'nnf', 'any'])), 'stageL'))
-    nres = 600 if tier == 'quick' else 20000
+    nres = 600 if tier == 'quick' else 12000
     for _ in range(nres):
         nv = rng.choice([2, 3, 3, 4])
         if rng.random() < 0.5:
             cases.append(('R ' + rand_clauses(rng, nv), 'res'))
         else:
             cases.append(('R ' + unsat_biased_clauses(rng, nv), 'resU'))
-    nv_ = 200 if tier == 'quick' else 4000
+    nv_ = 200 if tier == 'quick' else 2500
     for _ in range(nv_):
         def cl():
             return '{' + ','.join(str(rng.choice([1, -1]) * rng.randrange(1, 5)) for _ in range(rng.randrange(0, 4))) + '}'
@@ -413,8 +413,8 @@ def proof_cases(tier, seed):
         out += rng.sample(s3, 30) + rng.sample(s4, 14)
         out += [rand_form(rng, 2, 3, 1) for _ in range(10)]
     else:
-        out += s3 + rng.sample(s4, 150)
-        out += [rand_form(rng, 3, 3, 1) for _ in range(150)]
+        out += s3 + rng.sample(s4, 80)
+        out += [rand_form(rng, 3, 3, 1) for _ in range(60)]
     out.append(D6_WITNESS)
     # D16: metavariables carrying constraints (the stages identify a metavariable by its id only)
     out += ['c0', 'i c0 c0', 'i c0 t', 'i b c0', 'o c0 n c0', 'a c0 n c0', 'i a c0 v1 c0', 'e c0 c0']
@@ -442,6 +442,13 @@ def run(tier, seed):
     proof_broken = not P['ok']
     if proof_broken:
         R.notes.append('proof stage failed: ' + P['log'][-1500:])
+    coqchk = None
+    if tier == 'thorough' and not proof_broken:
+        rc, o, e = C.sh('timeout 900 coqchk -silent -o -Q . Pi2 Pi2.Props.C09', cwd=C.COQ, timeout=930)
+        coqchk = (o + e)[-600:]
+        if rc != 0 or '* Axioms: <none>' not in o:
+            proof_broken = True
+            R.notes.append('coqchk failed or reports axioms: ' + coqchk)
 
     # 2. tie stage
     ok, log, mlref = build_model()
@@ -521,7 +528,7 @@ def run(tier, seed):
                         f'clause conjunction {s}: expected {want}, got {i[4]}', {'input': line, 'got': i})
     # proof layer: run the returned proofs, compare conclusions literally
     pcs = proof_cases(tier, seed)
-    pans = run_impl(['Q ' + f for f in pcs], timeout_case=40 if tier == 'quick' else 120)
+    pans = run_impl(['Q ' + f for f in pcs], timeout_case=40 if tier == 'quick' else 60)
     n_pf = 0
     for f, a in zip(pcs, pans):
         if a is None or a.startswith('TIMEOUT') or a.startswith('<missing>'):
@@ -573,7 +580,7 @@ def run(tier, seed):
                           'R: random clause lists; non-trivial = at least two non-trivial distinct clauses enter the loop. '
                           'V/S: resolvable / simplify_clause calls. Q: proofs executed under StatefulInterpreter. '
                           'Compared per case: expansion, every stage output, final clause list, hint dictionary, build result, verdict.')
-    return R.finish(level='proof', trusted_base=C.TRUSTED_COMMON + [
+    return R.finish(level='proof', extra={'coqchk': coqchk} if coqchk else None, trusted_base=C.TRUSTED_COMMON + [
         'ocaml/taut_driver.ml (parser/printer of the line protocol)',
         'harness/impl/taut_runner.py: spies on resolution_algorithm/build_proof_from_hint by subclassing (no change to behaviour)',
         'fuel: model functions to_cnf/res_loop/build_term take explicit fuel; theorems exclude the out-of-fuel result; the driver uses 200000',
